@@ -50,6 +50,14 @@ func NewTinyLfu[K comparable, V any](size uint, hasher *hasher.Hasher[K]) *TinyL
 	return tlfu
 }
 
+// overCapacity reports whether the policy holds more than it may. Cost changes
+// reach the policy as deltas that can arrive in the reverse order, so the
+// unsigned total may pass below zero for a moment; that is not "over capacity"
+// and must not start an eviction (the compensating delta is on its way).
+func (t *TinyLfu[K, V]) overCapacity() bool {
+	return int64(t.weightedSize) > int64(t.capacity)
+}
+
 func (t *TinyLfu[K, V]) increaseWindow(amount int) int {
 	// try move from protected/probation to window
 	for {
@@ -176,7 +184,7 @@ func (t *TinyLfu[K, V]) Set(entry *Entry[K, V]) {
 	t.demoteFromProtected()
 	t.EvictEntries()
 
-	if t.weightedSize <= t.capacity {
+	if !t.overCapacity() {
 		count := t.slru.probation.count + t.slru.protected.count + t.window.count
 		t.sketch.EnsureCapacity(uint(count))
 	}
@@ -241,7 +249,7 @@ func (t *TinyLfu[K, V]) UpdateCost(entry *Entry[K, V], weightChange int64) {
 		}
 	}
 
-	if t.weightedSize > t.capacity {
+	if t.overCapacity() {
 		t.EvictEntries()
 	}
 }
@@ -290,7 +298,7 @@ func (t *TinyLfu[K, V]) evictFromMain(candidate *Entry[K, V]) {
 	candidateQueue := LIST_PROBATION
 	victim := t.slru.probation.Back()
 
-	for t.weightedSize > t.capacity {
+	for t.overCapacity() {
 		if candidate == nil && candidateQueue == LIST_PROBATION {
 			candidate = t.window.Back()
 			candidateQueue = LIST_WINDOW
